@@ -1025,3 +1025,88 @@ pub fn oracle_subtype(a: &D, b: &D) -> Result<Option<bool>, String> {
     let eb = inst.exports.get("b").ok_or("no export b")?;
     Ok(Some(wasmparser::component_types::ComponentEntityType::is_subtype_of(ea, tr, eb, tr)))
 }
+
+// ------------------------------------------------------------------------------------------
+// Types -> description (inverse of `Builder`; aliases are kept as `D::Alias`)
+
+pub fn vt_to_d(types: &Types, v: ValueType) -> Option<D> {
+    let ob = |v: &Option<ValueType>| -> Option<Option<Box<D>>> {
+        match v {
+            None => Some(None),
+            Some(v) => Some(Some(Box::new(vt_to_d(types, *v)?))),
+        }
+    };
+    Some(match v {
+        ValueType::Primitive(p) => D::Prim(p),
+        ValueType::Own(r) => D::Own(types[types.resolve_resource(r)].name.clone()),
+        ValueType::Borrow(r) => D::Borrow(types[types.resolve_resource(r)].name.clone()),
+        ValueType::Defined(d) => match &types[d] {
+            DefinedType::Tuple(ts) => D::Tuple(ts.iter().map(|t| vt_to_d(types, *t)).collect::<Option<_>>()?),
+            DefinedType::List(t) => D::List(Box::new(vt_to_d(types, *t)?)),
+            DefinedType::FixedSizeList(t, n) => D::FList(Box::new(vt_to_d(types, *t)?), *n),
+            DefinedType::Option(t) => D::Option(Box::new(vt_to_d(types, *t)?)),
+            DefinedType::Result { ok, err } => D::Result(ob(ok)?, ob(err)?),
+            DefinedType::Variant(v) => D::Variant(
+                v.cases
+                    .iter()
+                    .map(|(n, t)| {
+                        Some((
+                            n.clone(),
+                            match t {
+                                None => None,
+                                Some(t) => Some(vt_to_d(types, *t)?),
+                            },
+                        ))
+                    })
+                    .collect::<Option<_>>()?,
+            ),
+            DefinedType::Record(r) => {
+                D::Record(r.fields.iter().map(|(n, t)| Some((n.clone(), vt_to_d(types, *t)?))).collect::<Option<_>>()?)
+            }
+            DefinedType::Flags(f) => D::Flags(f.0.iter().cloned().collect()),
+            DefinedType::Enum(f) => D::Enum(f.0.iter().cloned().collect()),
+            DefinedType::Alias(t) => D::Alias(Box::new(vt_to_d(types, *t)?)),
+            DefinedType::Stream(t) => D::Stream(ob(t)?),
+            DefinedType::Future(t) => D::Future(ob(t)?),
+        },
+    })
+}
+
+fn items_to_d<'a>(types: &Types, it: impl Iterator<Item = (&'a String, &'a ItemKind)>) -> Option<Vec<(String, D)>> {
+    it.map(|(n, k)| Some((n.clone(), kind_to_d(types, *k)?))).collect()
+}
+
+fn ty_to_d(types: &Types, t: Type) -> Option<D> {
+    Some(match t {
+        Type::Resource(r) => D::Resource(types[types.resolve_resource(r)].name.clone()),
+        Type::Func(f) => {
+            let ft = &types[f];
+            D::Func {
+                is_async: ft.is_async,
+                params: ft.params.iter().map(|(n, t)| Some((n.clone(), vt_to_d(types, *t)?))).collect::<Option<_>>()?,
+                result: match ft.result {
+                    None => None,
+                    Some(t) => Some(Box::new(vt_to_d(types, t)?)),
+                },
+            }
+        }
+        Type::Value(v) => vt_to_d(types, v)?,
+        Type::Interface(i) => D::Instance(items_to_d(types, types[i].exports.iter())?),
+        Type::World(w) => {
+            D::Component(items_to_d(types, types[w].imports.iter())?, items_to_d(types, types[w].exports.iter())?)
+        }
+        Type::Module(m) => D::Module(MDesc(types[m].clone())),
+    })
+}
+
+/// the structural description of an item kind of a collection
+pub fn kind_to_d(types: &Types, k: ItemKind) -> Option<D> {
+    Some(match k {
+        ItemKind::Type(t) => D::Type(Box::new(ty_to_d(types, t)?)),
+        ItemKind::Value(v) => D::Value(Box::new(vt_to_d(types, v)?)),
+        ItemKind::Func(f) => ty_to_d(types, Type::Func(f))?,
+        ItemKind::Instance(i) => ty_to_d(types, Type::Interface(i))?,
+        ItemKind::Component(w) => ty_to_d(types, Type::World(w))?,
+        ItemKind::Module(m) => ty_to_d(types, Type::Module(m))?,
+    })
+}
